@@ -5,6 +5,9 @@ package c16
 
 import (
 	"fmt"
+	"go/ast"
+	"go/parser"
+	"go/token"
 	"math/rand"
 	"reflect"
 	"strconv"
@@ -46,7 +49,7 @@ type Block struct {
 var nameList = []string{"Query", "Path", "Header", "Body", "FormField", "Route", "Method", "Security", "Tag", "Description", "Deprecated", "Hidden", "Response", "ErrorResponse", "TemplateContext", "X", "Foo_1", "a", "Z9", "_u"}
 var valueAlphabet = []rune("abcdefXYZ019_-/\\{} ")
 var descWords = []string{"The", "id", "of", "user", "(optional)", "{docs}", "see", "über", "日本語", "данные", "a,b", "x:y", "\"quoted\"", "'s", "[1]", "@mention", "//", "*", "100%", "—", "🙂", "})", "{", "}", ")", "(", "({})"}
-var strAlphabet = []string{"a", "b", "Z", "0", " ", "{", "}", "(", ")", ",", ":", "[", "]", "'", "\"", "\\", "/", "@", "é", "日", "-", "_", "."}
+var strAlphabet = []string{"a", "b", "Z", "0", " ", "{", "}", "(", ")", ",", ":", "[", "]", "'", "\"", "\\", "/", "@", "é", "日", "-", "_", ".", "}) ", "})", "({", ") }"}
 
 func genValue(r *rand.Rand) string {
 	n := 1 + r.Intn(8)
@@ -549,6 +552,105 @@ func Check(res *report.Result, b Block) {
 	}
 }
 
+// CheckParsed drives the same block through the path the pipeline uses: the lines become the doc comment
+// of a function in real Go source, go/parser + a FileSet produce the comment group, and
+// gast.MapDocListToCommentBlock turns it into the CommentBlock. The result must agree with the directly
+// constructed block (same attributes, free text and entity description). With lead=true the group starts
+// with a two-row /* */ comment: the attributes must not change and, absent @Description, the leading
+// free-text lines of the block must still end the entity description (they stay contiguous in the source).
+func CheckParsed(res *report.Result, b Block, lead bool) {
+	var sb strings.Builder
+	sb.WriteString("package p\n\n")
+	if lead {
+		sb.WriteString("/* lead block\n   second row */\n")
+	}
+	for _, l := range b.Lines {
+		sb.WriteString(l.Text)
+		sb.WriteString("\n")
+	}
+	sb.WriteString("func F() {}\n")
+	fset := token.NewFileSet()
+	f, perr := parser.ParseFile(fset, "/virtual/file.go", sb.String(), parser.ParseComments)
+	if perr != nil {
+		res.Inc("parsed stage: rendered block is not Go source (skipped)")
+		return
+	}
+	var doc *ast.CommentGroup
+	for _, d := range f.Decls {
+		if fd, ok := d.(*ast.FuncDecl); ok && fd.Name.Name == "F" {
+			doc = fd.Doc
+		}
+	}
+	off := 0
+	if lead {
+		off = 1
+	}
+	if doc == nil || len(doc.List) != len(b.Lines)+off {
+		res.Inc("parsed stage: lines did not form one doc group (skipped)")
+		return
+	}
+	for i, l := range b.Lines {
+		if doc.List[i+off].Text != l.Text {
+			res.Inc("parsed stage: scanner normalised a line (skipped)")
+			return
+		}
+	}
+	res.Evaluations++
+	mk := func(cb gast.CommentBlock) (h annotations.AnnotationHolder, err error) {
+		defer func() {
+			if rec := recover(); rec != nil {
+				err = fmt.Errorf("PANIC: %v", rec)
+			}
+		}()
+		return annotations.NewAnnotationHolder(cb, annotations.CommentSourceRoute)
+	}
+	where := map[string]string{"stage": "parsed", "lead": fmt.Sprint(lead)}
+	hd, errd := mk(toCommentBlock(b))
+	hp, errp := mk(gast.MapDocListToCommentBlock(doc.List, fset))
+	if errp != nil && strings.HasPrefix(errp.Error(), "PANIC") {
+		res.AddViolation("panic", where, errp.Error(), b)
+		return
+	}
+	if (errd == nil) != (errp == nil) {
+		res.AddViolation("parsed-path-differs", where, fmt.Sprintf("directly built block: err=%v; same lines through go/parser + MapDocListToCommentBlock: err=%v", errd, errp), b)
+		return
+	}
+	if errd != nil {
+		return
+	}
+	ad, ap := hd.Attributes(), hp.Attributes()
+	if len(ad) != len(ap) {
+		res.AddViolation("parsed-path-differs", where, fmt.Sprintf("%d attributes from the parsed group, %d from the same lines built directly", len(ap), len(ad)), b)
+		return
+	}
+	for i := range ad {
+		if ad[i].Name != ap[i].Name || ad[i].Value != ap[i].Value || ad[i].Description != ap[i].Description || !propsEqual(ad[i].Properties, ap[i].Properties) {
+			res.AddViolation("parsed-path-differs", where, fmt.Sprintf("attribute %d: parsed group gives name=%q value=%q props=%v desc=%q, the same line built directly name=%q value=%q props=%v desc=%q", i, ap[i].Name, ap[i].Value, ap[i].Properties, ap[i].Description, ad[i].Name, ad[i].Value, ad[i].Properties, ad[i].Description), b)
+			return
+		}
+	}
+	fd, fp := hd.NonAttributeComments(), hp.NonAttributeComments()
+	if len(fp) != len(fd)+off {
+		res.AddViolation("parsed-path-differs", where, fmt.Sprintf("%d free-text comments from the parsed group, %d(+%d) expected", len(fp), len(fd), off), b)
+		return
+	}
+	for i := range fd {
+		if fp[i+off].Value != fd[i].Value || fp[i+off].Index != fd[i].Index+off {
+			res.AddViolation("parsed-path-differs", where, fmt.Sprintf("free text %d: parsed group keeps %q at index %d, directly built %q at index %d(+%d)", i, fp[i+off].Value, fp[i+off].Index, fd[i].Value, fd[i].Index, off), b)
+			return
+		}
+	}
+	dd, dp := hd.GetDescription(), hp.GetDescription()
+	switch {
+	case !lead || hd.GetFirst(annotations.GleeceAnnotationDescription) != nil:
+		if dd != dp {
+			res.AddViolation("parsed-path-differs", where, fmt.Sprintf("GetDescription()=%q from the parsed group, %q from the same lines built directly", dp, dd), b)
+		}
+	case dd != "" && !strings.HasSuffix(dp, "\n"+dd):
+		res.AddViolation("description-truncated-after-block-comment", where, fmt.Sprintf("the group is a two-row /* */ comment followed by the block's lines; GetDescription()=%q does not end with the block's leading free text %q", dp, dd), b)
+	}
+}
+
 func shape(b Block) string {
 	var sb strings.Builder
 	for _, l := range b.Lines {
@@ -588,6 +690,9 @@ func Run(seed int64, tier string) *report.Result {
 		}
 		b := genBlock(r, mode)
 		Check(res, b)
+		if i%4 == 0 {
+			CheckParsed(res, b, i%8 == 0)
+		}
 		dist.Add(shape(b))
 		for _, l := range b.Lines {
 			classCount[l.Class]++
@@ -601,7 +706,7 @@ func Run(seed int64, tier string) *report.Result {
 		}
 	}
 	res.Distinct = dist.N()
-	res.Rule = "blocks of 1..12 comment lines drawn from four classes (annotation lines of the documented form rendered from a generator-owned tuple with our own JSON5 printer; free text; look-alike lines that are not of the form; one malformed-properties line in every 10th block); distinct = distinct block shapes (line classes x presence of value/properties/description x properties size)"
+	res.Rule = "blocks of 1..12 comment lines drawn from four classes (annotation lines of the documented form rendered from a generator-owned tuple with our own JSON5 printer; free text; look-alike lines that are not of the form; one malformed-properties line in every 10th block); every 4th block is additionally rendered as the doc comment of a function in Go source, parsed with go/parser and a FileSet, mapped by gast.MapDocListToCommentBlock and compared with the directly built block (every 8th with a two-row /* */ comment leading the group); distinct = distinct block shapes (line classes x presence of value/properties/description x properties size)"
 	res.Extra("lines_by_class", classCount)
 	res.Assumptions = []string{"annotation line form = DESIGN.md A.9; values carry no leading/trailing blanks and no blank precedes the comma (the statement does not say whom such blanks belong to)", "malformed property objects keep their outer braces so that the line is still 'of the form'"}
 	return res
@@ -610,6 +715,8 @@ func Run(seed int64, tier string) *report.Result {
 func Replay(b Block) *report.Result {
 	res := &report.Result{Property: "C16"}
 	Check(res, b)
+	CheckParsed(res, b, false)
+	CheckParsed(res, b, true)
 	res.Distinct = 2
 	return res
 }
